@@ -85,6 +85,14 @@ def gen_fileset(r, blocks, prev):
         if k < 0.6 and prev and nm in prev:
             fs[nm] = prev[nm]
             continue
+        if k < 0.72 and prev and prev.get(nm):
+            # rewritten in place: another content of exactly the same length (a database page file, a fixed-size image) — the recorded
+            # size and, in these worlds, the recorded mtime are those of the previous version
+            old = prev[nm]
+            fs[nm] = r.randbytes(len(old)) if r.random() < 0.5 else bytes([old[0] ^ r.randrange(1, 256)]) + old[1:]
+            if fs[nm] == old:
+                fs[nm] = bytes([old[0] ^ 1]) + old[1:]
+            continue
         parts = [r.choice(blocks) for _ in range(r.choice([0, 1, 1, 2, 3]))]
         fs[nm] = b''.join(parts) + (r.randbytes(r.choice([0, 0, 3, 9])))
     return fs
@@ -472,7 +480,15 @@ def observe_user(w, ui, r, viol, step_no, extra):
     impl.append({'kind': 'listfiles', 'cols': cols, 'rows': impl_rows, 'error': ferr, 'regex': [sre, fre], 'tsmap': tsmap})
 
     # ---------------- restore
-    rerr, tree = w.restore(ui, snapshot_regex=sre2, file_regex=fre, repo=w.observer(ui) if w.clients is not None else None)
+    # the target directory of a restore is not always empty: it may hold what an earlier restore (another selection, another user) put there
+    over = getattr(w, '_last_restored', None) if r.random() < 0.4 else None
+    rerr, tree = w.restore(ui, snapshot_regex=sre2, file_regex=fre, repo=w.observer(ui) if w.clients is not None else None, over=over)
+    if over:
+        extra['restores_over_an_earlier_restore'] = extra.get('restores_over_an_earlier_restore', 0) + 1
+        if tree is not None and any(p in over and over[p] != v and len(over[p]) == len(v) for p, v in tree.items()):
+            extra['restores_over_another_version_of_equal_size_and_mtime'] = extra.get('restores_over_another_version_of_equal_size_and_mtime', 0) + 1
+    if rerr is None and tree:
+        w._last_restored = dict(tree)
     sel = expected_selection(w, u, sre2, fre)
     rp2 = dict(rp, snapshot_regex=sre2)
     if rerr is not None:
